@@ -52,12 +52,108 @@ for _cls, _op in OPS.items():
         variants=[dict(_op=Const(_op))],
         ensures=lambda self, fd1, fd2, _op:
             self.source is fd1.source and self.concrete_paths is fd1.concrete_paths
-            and len(self.result) == len(fd1.result)
+            and len(self.result) == len(fd1.result) and len(self.pre_processor_error) == len(fd1.result)
+            and len(self.callable_error) == len(fd1.result) and len(self.callable_false) == len(fd1.result)
             and forall_idx(len(self.result), lambda j:
                            same(self.result[j], _op(fd1.result[j], fd2.result[j]))
                            and same(self.callable_false[j], not self.result[j])
                            and same(self.pre_processor_error[j], bool(fd1.pre_processor_error[j] or fd2.pre_processor_error[j]))
                            and same(self.callable_error[j], bool(fd1.callable_error[j] or fd2.callable_error[j]))),
         raises={},
+        init_fields=dict(source=lambda fd1: fd1.source,
+                         concrete_paths=lambda fd1: fd1.concrete_paths,
+                         children=AnyVal(), result=ListOf(fresh=True),
+                         pre_processor_error=ListOf(fresh=True), callable_error=ListOf(fresh=True), callable_false=ListOf(fresh=True)),
+        requires=lambda fd1, fd2:
+            fd1.source is fd2.source and len(fd1.result) == len(fd2.result)
+            and len(fd1.pre_processor_error) == len(fd1.result) and len(fd2.pre_processor_error) == len(fd1.result)
+            and len(fd1.callable_error) == len(fd1.result) and len(fd2.callable_error) == len(fd1.result)
+            and forall_idx(len(fd1.result), lambda j: is_bool(fd1.result[j]) and is_bool(fd2.result[j])
+                           and is_bool(fd1.pre_processor_error[j]) and is_bool(fd2.pre_processor_error[j])
+                           and is_bool(fd1.callable_error[j]) and is_bool(fd2.callable_error[j])),
         serves=["C02", "C05"],
+    )
+
+
+# ------------------------------------------------------------------------------------------ combinations
+from pyvc.contracts import interface, TupleOf, DictVal
+from pyvc.sym import LTuple
+from spec.prims import SemAt
+
+
+class Pair(Shape):
+    """children = (c0, c1): two conditions of unknown class (any tree)."""
+
+    def make(self, ip, name):
+        return LTuple([AnyVal().make(ip, name + "0"), AnyVal().make(ip, name + "1")])
+
+
+def DataObj():
+    return Obj("valida.data:Data", _keys=TupleOf(), _values=TupleOf(), _is_list=Bool())
+
+
+def FilteredShape(cls="valida.data:FilteredData"):
+    return Obj(cls, fresh=True, result=ListOf(fresh=True), pre_processor_error=ListOf(fresh=True), callable_error=ListOf(fresh=True),
+               callable_false=ListOf(fresh=True), concrete_paths=AnyVal())
+
+
+# what every condition's _filter does (without paths attached): a fresh filtered view over the same Data object with one
+# bool per item; SemAt(c, data, j) names "what condition c gives for item j of data" (Meaning for a leaf - proved in
+# contracts/conditions.py - and, by the obligations below, the operator applied to the children's SemAt for a combination)
+interface(
+    "_filter",
+    param_names=[("self", None), ("data", None), ("data_has_paths", False), ("source_data", None)],
+    requires=lambda data, data_has_paths: not data_has_paths and len(data._keys) == len(data._values),
+    returns=FilteredShape(),
+    result_aliases=dict(source="data"),
+    ensures=lambda self, data, source_data, result:
+        result.source is data and result.concrete_paths is None
+        and len(result.result) == len(data._values) and len(result.pre_processor_error) == len(data._values)
+        and len(result.callable_error) == len(data._values) and len(result.callable_false) == len(data._values)
+        and forall_idx(len(data._values), lambda j: is_bool(result.result[j]) and is_bool(result.pre_processor_error[j])
+                       and is_bool(result.callable_error[j]) and is_bool(result.callable_false[j])
+                       and same(result.result[j], SemAt(self, data, j, source_data))),
+    raises={},
+    assumed=True,
+    note="satisfied by Condition._filter (8 leaf classes) and by ConditionAnd/Or/Xor._filter, each proved against its own contract",
+)
+
+def _witnesses(cls):
+    def make():
+        from valida.conditions import Value, Key
+        out = []
+        leaves = [Value.equal_to(1), Value.gt(1), Value.lt(3), Value.dtype.equal_to(int), Key.equal_to("a"), Value.length.gt(0)]
+        for data in ([1, 2, 3], {"a": 1, "b": [2]}, [0, None, "x"]):
+            for a in leaves:
+                for b in leaves:
+                    o = object.__new__(cls)
+                    o.children = (a, b)
+                    out.append(dict(self=o, data=valida.data.Data(data), data_has_paths=False, source_data=None))
+        return out
+    return make
+
+
+for _cls, _fd, _op in ((cnds.ConditionAnd, valida.data.FilteredDataAnd, operator.and_), (cnds.ConditionOr, valida.data.FilteredDataOr, operator.or_),
+                       (cnds.ConditionXor, valida.data.FilteredDataXor, operator.xor)):
+    contract(
+        f"valida.conditions:{_cls.__name__}._filter",
+        params=dict(self=Obj(_cls, children=Pair()), data=DataObj(), data_has_paths=Const(False), source_data=AnyVal()),
+        variants=[dict(_op=Const(_op), _fd=Const(_fd))],
+        requires=lambda self, data:
+            isinstance(self.children[0], cnds.ConditionLike) and isinstance(self.children[1], cnds.ConditionLike)
+            and len(data._keys) == len(data._values),
+        ensures=lambda self, data, source_data, result, _op, _fd:
+            type(result) is _fd and is_fresh(result) and result.source is data
+            and len(result.result) == len(data._values)
+            and result.concrete_paths is None
+            and len(result.pre_processor_error) == len(data._values) and len(result.callable_error) == len(data._values)
+            and len(result.callable_false) == len(data._values)
+            and forall_idx(len(data._values), lambda j:
+                           same(result.result[j], _op(SemAt(self.children[0], data, j, source_data),
+                                                      SemAt(self.children[1], data, j, source_data)))
+                           and is_bool(result.pre_processor_error[j]) and is_bool(result.callable_error[j])
+                           and is_bool(result.callable_false[j])),
+        raises={},
+        witnesses=_witnesses(_cls),
+        serves=["C02"],
     )
